@@ -84,6 +84,7 @@ enum {
     V_STRUCTURE,            /* sub_get_super / iterate_sub do not tell the truth */
     V_ORDER,                /* a pass-through lane delivered a buffer twice or out of order */
     V_PAYLOAD,              /* a pass-through lane changed the payload */
+    V_STALE_FLOW_DEF,       /* a buffer delivered under a flow definition that is no longer the pipe's current one */
 };
 
 static const char *class_name(int cls)
@@ -100,6 +101,7 @@ static const char *class_name(int cls)
     case V_STRUCTURE: return "family_structure";
     case V_ORDER: return "reordered_or_duplicated";
     case V_PAYLOAD: return "payload_changed";
+    case V_STALE_FLOW_DEF: return "stale_flow_def";
     default: return NULL;
     }
 }
@@ -187,7 +189,30 @@ static struct sink {
     unsigned inputs, flow_defs;
     bool any;
     uint64_t last_seq;
+    uint64_t fd_hash;           /* of the flow definition accepted last */
 } sinks[MAXSLOT];
+
+static uint64_t dict_hash(struct uref *uref)
+{
+    uint64_t h = 7;
+    if (uref == NULL || uref->udict == NULL)
+        return h;
+    const char *name = NULL;
+    enum udict_type t = UDICT_TYPE_END;
+    while (ubase_check(udict_iterate(uref->udict, &name, &t)) && t != UDICT_TYPE_END) {
+        const uint8_t *v = NULL;
+        size_t size = 0;
+        uint64_t e = sim_mix((uint64_t)t, 99);
+        if (name != NULL)
+            for (const char *c = name; *c; c++)
+                e = sim_mix(e, (uint64_t)(uint8_t)*c);
+        if (ubase_check(udict_get(uref->udict, name, t, &size, &v)) && v != NULL)
+            for (size_t i = 0; i < size; i++)
+                e = sim_mix(e, v[i]);
+        h += e;
+    }
+    return h;
+}
 
 /* what went in (block payloads only) */
 #define MAXSEQ 128
@@ -311,6 +336,14 @@ static void sink_input(struct upipe *upipe, struct uref *uref, struct upump **up
             sim_violation(V_NO_FLOW_DEF, "%s sends a buffer to an output that %s", slot_name(i),
                           k->refuse ? "refused its flow definition" : "was given no flow definition");
     }
+    /* the definition this output accepted is still the one the pipe calls its
+     * current one (C04: again after every change of flow definition) */
+    if (checking() && k->accepted && !slots[i].dead && slots[i].id != NULL && !fault_fired) {
+        struct uref *cur = NULL;
+        if (ubase_check(upipe_get_flow_def(slots[i].id, &cur)) && cur != NULL && dict_hash(cur) != k->fd_hash)
+            sim_violation(V_STALE_FLOW_DEF, "%s delivers a buffer although its current flow definition (get_flow_def) is not the one "
+                          "its output accepted last: a change was not announced", slot_name(i));
+    }
     uint64_t sq = 0;
     int src = fams[fam].lanes == 2 ? 0 : i;
     if (fams[fam].lanes && plan->cfg[CFG_PROP] == 5 && checking() && !fault_fired &&
@@ -345,6 +378,12 @@ static int sink_control(struct upipe *upipe, int command, va_list args)
             return UBASE_ERR_INVALID;
         }
         k->accepted = true;
+        {
+            va_list copy;
+            va_copy(copy, args);
+            k->fd_hash = dict_hash(va_arg(copy, struct uref *));
+            va_end(copy);
+        }
         return UBASE_ERR_NONE;
     case UPIPE_REGISTER_REQUEST: {
         struct urequest *rq = va_arg(args, struct urequest *);
@@ -721,6 +760,12 @@ static void do_op(const struct sim_op *op)
                                     (uint64_t)op->a[2], &kind);
         if (fd == NULL)
             break;
+        if (i != 0) {
+            /* the continuity pipes select their input by the name of its flow */
+            char fname[8];
+            snprintf(fname, sizeof(fname), "in%d", i);
+            uref_flow_set_name(fd, fname);
+        }
         arm(op);
         int err = upipe_set_flow_def(s->handle, fd);
         disarm(op);
@@ -813,18 +858,52 @@ static void do_op(const struct sim_op *op)
         if (s->handle == NULL)
             break;
         uint64_t v = (uint64_t)op->a[1];
-        if (fam == 3 && i == 0) {
+        const char *name = fams[fam].name;
+        char in[8];
+        snprintf(in, sizeof(in), "in%d", 1 + (int)(v % (MAXSLOT - 1)));
+        arm(op);
+        if (!strcmp(name, "trickplay") && i == 0) {
             struct urational rate = { (int64_t)(v % 4), 1 + v % 2 };
             upipe_trickp_set_rate(s->handle, rate);
-        } else if (fam == 9 && s->grid_out) {
-            /* grid: which input feeds this output */
+        } else if (!strcmp(name, "grid") && s->grid_out) {
+            /* which input feeds this output */
             int j = 1 + (int)(v % (MAXSLOT - 1));
-            struct upipe *in = slots[j].handle != NULL && !slots[j].grid_out ? slots[j].handle : NULL;
-            upipe_grid_out_set_input(s->handle, in);
-        } else if (fam == 13 && i != 0) {
-            upipe_flush(s->handle);
+            struct upipe *from = slots[j].handle != NULL && !slots[j].grid_out ? slots[j].handle : NULL;
+            upipe_grid_out_set_input(s->handle, from);
+        } else if (!strcmp(name, "audiocont")) {
+            /* which input is played: by sub-pipe, or by the name of its flow */
+            if (i != 0)
+                upipe_audiocont_sub_set_input(s->handle);
+            else if (v & 8)
+                upipe_audiocont_set_crossblend(s->handle, v * 1000);
+            else if (v & 16)
+                upipe_audiocont_set_latency(s->handle, v * 27000);
+            else
+                upipe_audiocont_set_input(s->handle, (v & 32) ? NULL : in);
+        } else if (!strcmp(name, "videocont")) {
+            if (i != 0)
+                upipe_videocont_sub_set_input(s->handle);
+            else if (v & 8)
+                upipe_videocont_set_tolerance(s->handle, v * 27000);
+            else if (v & 16)
+                upipe_videocont_set_latency(s->handle, v * 27000);
+            else
+                upipe_videocont_set_input(s->handle, (v & 32) ? NULL : in);
+        } else if (!strcmp(name, "blit")) {
+            if (i == 0)
+                upipe_blit_prepare(s->handle, NULL);
+            else if ((v & 3) == 0)
+                upipe_blit_sub_set_rect(s->handle, v % 8, (v >> 3) % 8, v % 4, (v >> 2) % 4);
+            else if ((v & 3) == 1)
+                upipe_blit_sub_set_alpha(s->handle, (int)(v % 256));
+            else if ((v & 3) == 2)
+                upipe_blit_sub_set_z_index(s->handle, (int)(v % 5) - 2);
+            else
+                upipe_blit_sub_set_alpha_threshold(s->handle, (int)(v % 256));
         } else
             upipe_flush(s->handle);
+        disarm(op);
+        SIM_PROBE("fam_option");
         break;
     }
     default:
@@ -934,13 +1013,24 @@ static void gen(const char *pr, struct sim_rng *r, struct sim_plan *p)
             sim_plan_add(p, 0, OP_FLOW_DEF, i, sim_rng_chance(r, 3, 4) ? def : sim_rng_below(r, NTYPED), sim_rng_below(r, 32), 0, 0, 0);
             sim_plan_add(p, 0, OP_SET_OUTPUT, i, 1, 0, 0, 0, 0);
             if (sim_rng_chance(r, 1, 2))
-                sim_plan_add(p, 0, OP_OPTION, i, sim_rng_below(r, 8), 0, 0, 0, 0);
+                sim_plan_add(p, 0, OP_OPTION, i, sim_rng_below(r, 64), 0, 0, 0, 0);
         }
     }
     int n = 4 + (int)sim_rng_below(r, 24);
+    /* families that select among their sub-pipes (continuity pipes, grid, blit):
+     * selection, release and data on the super-pipe are what their state is about */
+    int f_ = (int)p->cfg[CFG_FAM];
+    bool selects = !strcmp(fams[f_].name, "audiocont") || !strcmp(fams[f_].name, "videocont") ||
+                   !strcmp(fams[f_].name, "grid") || !strcmp(fams[f_].name, "blit");
     for (int k = 0; k < n; k++) {
         uint32_t c = sim_rng_below(r, 100);
         int slot = (int)sim_rng_below(r, (uint32_t)nsub + 1);
+        if (selects && c < 30) {
+            if (c < 14) sim_plan_add(p, 0, OP_OPTION, slot, sim_rng_below(r, 64), 0, 0, 0, 0);
+            else if (c < 22) sim_plan_add(p, 0, OP_INPUT, 0, sim_rng_below(r, 200), sim_rng_below(r, 256), sim_rng_below(r, 64), 0, 0);
+            else sim_plan_add(p, 0, OP_RELEASE, 1 + sim_rng_below(r, (uint32_t)nsub), 0, 0, 0, 0, 0);
+            continue;
+        }
         int64_t f = p->cfg[CFG_FAULTS] && sim_rng_chance(r, 1, 5) ? 1 + sim_rng_below(r, 5) : 0;
         if (c < 38) sim_plan_add(p, 0, OP_INPUT, slot, sim_rng_below(r, 200), sim_rng_below(r, 256), sim_rng_below(r, 64), sim_rng_below(r, 3), 0);
         else if (c < 46) sim_plan_add(p, 0, OP_FLOW_DEF, slot, sim_rng_chance(r, 1, 2) ? def : sim_rng_below(r, NTYPED), sim_rng_below(r, 32), 0, 0, f);
@@ -948,11 +1038,12 @@ static void gen(const char *pr, struct sim_rng *r, struct sim_plan *p)
         else if (c < 64) sim_plan_add(p, 0, OP_RUN, sim_rng_below(r, 16), 0, 0, 0, 0, 0);
         else if (c < 72) sim_plan_add(p, 0, OP_ADVANCE, sim_rng_below(r, 27000000), 0, 0, 0, 0, 0);
         else if (c < 79) sim_plan_add(p, 0, OP_SET_OUTPUT, slot, sim_rng_below(r, 2), 0, 0, 0, f);
-        else if (c < 88) sim_plan_add(p, 0, OP_RELEASE, slot, 0, 0, 0, 0, 0);
+        else if (c < 86) sim_plan_add(p, 0, OP_RELEASE, slot, 0, 0, 0, 0, 0);
+        else if (c < 90) sim_plan_add(p, 0, OP_OPTION, slot, sim_rng_below(r, 64), 0, 0, 0, f);
         else if (c < 91) sim_plan_add(p, 0, OP_SINK_MODE, slot, sim_rng_below(r, 2), 0, 0, 0, 0);
         else if (c < 95) sim_plan_add(p, 0, OP_STRUCTURE, 0, 0, 0, 0, 0, 0);
         else if (c < 97) sim_plan_add(p, 0, OP_ATTACH, slot, sim_rng_below(r, 4), 0, 0, 0, 0);
-        else sim_plan_add(p, 0, OP_OPTION, slot, sim_rng_below(r, 8), 0, 0, 0, 0);
+        else sim_plan_add(p, 0, OP_OPTION, slot, sim_rng_below(r, 64), 0, 0, 0, f);
     }
 }
 
